@@ -179,8 +179,15 @@ func (d *Decoder) decodeSet(mem MemCache, msg *Message) error {
 		}
 	}
 
-	// the next set should be greater than 4 bytes otherwise that's padding
-	for err == nil && setHeader.Length > uint16(d.reader.ReadCount()-startCount) && d.reader.Len() > 4 && setHeader.Length-uint16(d.reader.ReadCount()-startCount) > 4 {
+	// RFC 7011 3.3.1: padding is shorter than any allowable record in the set, so a data set
+	// is exhausted once fewer octets are left than the shortest record of its template.
+	// For template and reserved sets, anything up to 4 bytes is padding.
+	minLen := 5
+	if setHeader.SetID > 255 && err == nil {
+		minLen = tr.minRecordLength()
+	}
+
+	for err == nil && int(setHeader.Length)-(d.reader.ReadCount()-startCount) >= minLen && (setHeader.SetID > 255 || d.reader.Len() > 4) {
 		if setID := setHeader.SetID; setID == 2 || setID == 3 {
 			// Template record or template option record
 
@@ -221,7 +228,11 @@ func (d *Decoder) decodeSet(mem MemCache, msg *Message) error {
 
 	// Skip the rest of the set in order to properly continue with the next set
 	// This is necessary if the set is padded, has a reserved set ID, or a nonfatal error occurred
-	leftoverBytes := setHeader.Length - uint16(d.reader.ReadCount()-startCount)
+	leftoverBytes := int(setHeader.Length) - (d.reader.ReadCount() - startCount)
+	if leftoverBytes < 0 {
+		// a record ran over the end of its set
+		return io.ErrUnexpectedEOF
+	}
 	if leftoverBytes > 0 {
 		if _, skipErr := d.reader.Read(int(leftoverBytes)); skipErr != nil {
 			err = skipErr
@@ -477,6 +488,28 @@ func (tr *TemplateRecord) unmarshalOpts(r *reader.Reader) error {
 		tr.FieldSpecifiers = append(tr.FieldSpecifiers, tf)
 	}
 	return nil
+}
+
+// minRecordLength returns the number of octets the shortest data record
+// described by the template occupies (a variable-length field takes at least
+// its one-octet length prefix).
+func (tr *TemplateRecord) minRecordLength() int {
+	var n int
+
+	for _, specs := range [][]TemplateFieldSpecifier{tr.ScopeFieldSpecifiers, tr.FieldSpecifiers} {
+		for _, f := range specs {
+			if f.Length == 65535 {
+				m, ok := InfoModel[ElementKey{f.EnterpriseNo, f.ElementID}]
+				if ok && (m.Type == String || m.Type == OctetArray) {
+					n++
+					continue
+				}
+			}
+			n += int(f.Length)
+		}
+	}
+
+	return n
 }
 
 func (d *Decoder) getDataLength(fieldSpecifierLen uint16, t FieldType) (uint16, error) {
